@@ -157,6 +157,9 @@ def truth(I, ctx, v):
 # arithmetic
 # ----------------------------------------------------------------------
 def binop(I, ctx, op, a, b):
+    from . import nparr
+    if isinstance(a, nparr.NArr) or isinstance(b, nparr.NArr):
+        return nparr.arr_binop(I, ctx, op, a, b)
     # user-defined / array operators first
     for x, y, refl in ((a, b, False), (b, a, True)):
         if isinstance(x, Opaque) and x.attrs.get("binop"):
@@ -308,6 +311,12 @@ def _concrete_binop(I, ctx, op, a, b):
 
 
 def inplace_op(I, ctx, op, cur, rhs):
+    from . import nparr
+    if isinstance(cur, nparr.NArr):
+        # in-place: the array object keeps its identity, aliases see the new content
+        new = nparr.arr_binop(I, ctx, op, nparr.NArr(cur.n, cur.elem, cur.dtype), rhs)
+        cur.elem = new.elem
+        return cur
     if isinstance(op, ast.Add) and isinstance(cur, ListVal):
         cur.items.extend(I.iterate(ctx, rhs))
         return cur
@@ -317,6 +326,9 @@ def inplace_op(I, ctx, op, cur, rhs):
 
 
 def invert(I, ctx, v):
+    from . import nparr
+    if isinstance(v, nparr.NArr):
+        return nparr.NArr(v.n, lambda i: wrap(z3.Not(zbool(v.elem(i)))), "bool", "~")
     if isinstance(v, Opaque) and v.attrs.get("invert"):
         return v.attrs["invert"](ctx)
     if isinstance(v, int):
@@ -392,6 +404,8 @@ def merge_vals(cond, a, b):
 
 
 def _z(k):
+    if isinstance(k, Sym):
+        return k.e
     return z3.IntVal(k) if isinstance(k, int) else k
 
 
@@ -467,6 +481,12 @@ def eq_formula(I, ctx, a, b):
         return a == b
     if isinstance(a, str) and isinstance(b, str):
         return a == b
+    from . import nparr
+    if isinstance(a, nparr.DType) or isinstance(b, nparr.DType):
+        try:
+            return nparr.dtype_tag(I, a) == nparr.dtype_tag(I, b)
+        except Unsupported:
+            return False
     if isinstance(a, IsoStr) and isinstance(b, IsoStr):
         return smt.simp(_z(a.key) == _z(b.key))
     if isinstance(a, (IsoStr, FmtStr)) or isinstance(b, (IsoStr, FmtStr)):
@@ -506,6 +526,9 @@ def _zb(f):
 
 
 def compare(I, ctx, op, a, b):
+    from . import nparr
+    if (isinstance(a, nparr.NArr) or isinstance(b, nparr.NArr)) and isinstance(op, (ast.Eq, ast.NotEq, ast.Lt, ast.LtE, ast.Gt, ast.GtE)):
+        return nparr.arr_compare(I, ctx, op, a, b)
     if isinstance(op, ast.Is):
         return is_formula(I, ctx, a, b)
     if isinstance(op, ast.IsNot):
@@ -732,6 +755,9 @@ def norm_index(I, ctx, i, n):
 
 def getitem(I, ctx, o, k):
     from .interp import hkey
+    from . import nparr
+    if isinstance(o, nparr.NArr):
+        return nparr.narr_getitem(I, ctx, o, k)
     if isinstance(k, tuple) and k and k[0] == "slice":
         return getslice(I, ctx, o, k)
     if isinstance(o, (TupleVal, ListVal)):
@@ -894,6 +920,16 @@ def bind_descriptor(I, ctx, attr, inst, cls):
 def getattr_(I, ctx, o, name, default=_MISSING):
     from .interp import SuperVal
     from . import pybuiltins as PB
+    from . import nparr
+    if isinstance(o, nparr.NArr):
+        r = nparr.arr_getattr(I, ctx, o, name)
+        if r is not None:
+            return r
+        raise Unsupported(f"ndarray.{name} is not modelled at {ctx.where}")
+    if isinstance(o, nparr.DType):
+        if name == "name":
+            return o.tag
+        raise Unsupported(f"dtype.{name}")
     if isinstance(o, ModuleVal):
         return I.module_getattr(o, name)
     if isinstance(o, Obj):
